@@ -4,8 +4,11 @@
 
   commonroad/scenario/lanelet.py   LaneletNetwork.cleanup_lanelet_references, cleanup_traffic_sign_references,
                                    cleanup_traffic_light_references, remove_lanelet, remove_traffic_sign, remove_traffic_light,
-                                   remove_intersection, create_from_lanelet_list, create_from_lanelet_network (in pieces)
-  commonroad/scenario/scenario.py  Scenario.remove_hanging_lanelet_members (the two id sets), remove_lanelet, remove_traffic_sign,
+                                   remove_intersection, create_from_lanelet_list, create_from_lanelet_network (three pieces
+                                   that exhaust the body — prefix + first loop, body of the intersection loop, tail — and
+                                   the whole function as their composition)
+  commonroad/scenario/scenario.py  Scenario.remove_hanging_lanelet_members (whole; also the two id sets alone), remove_lanelet,
+                                   remove_traffic_sign,
                                    remove_traffic_light, remove_intersection
 
 with `ast` and writes Lean definitions over the records of lean/CRModel/Refs.lean to `<gen_dir>/SrcC10.lean` (module `Gen.SrcC10`).
